@@ -69,9 +69,15 @@ def shape_err(kind):
     return sh
 
 
-def shape_deferred(coinciding):
+def shape_deferred(coinciding, after_sibling=False):
     def sh(B):
         res = S.resolver(B)
+        if after_sibling:
+            # a sibling block was opened and closed before the call; it privately defines the very name the argument mentions
+            root0 = B.I.hget(B.st, res).fields["current_scope"]
+            sib = S.scope(B, res, root0, symbols={"later": B.int("sibling_private_later")})
+            B.I.hmut(B.st, B.I.hget(B.st, res).fields["scopes"]).items.append(sib)
+            B.I.hmut(B.st, res).fields["last_used_scope"] = 1
         va, vl = B.int("va"), B.int("late_value")
         S.root_symbols(B, res, {"a": va})
         if coinciding:
@@ -91,7 +97,7 @@ def shape_block_arg(nested):
         macro = S.ast_macro(B, "w", ["code"], body)
         arg = S.ast_block(B, [S.ast_label(B, "x1"), S.ast_label(B, "x2")])
         return {"macro_def": macro, "apply_node": S.ast_apply(B, "w", [arg]), "resolver": res, "tok": S.tok(B, "IDENTIFIER", "w"),
-                "expected_labels": B.list(["before", "x1", "x2", "after"])}
+                "expected_labels": B.list(["before", "x1", "x2", "after"]), "expected_scopes": 3 if nested else 1}
     return sh
 
 
@@ -105,8 +111,9 @@ def cases(E):
     for kind in ("undefined", "too few", "too few, missing name defined outside"):
         cs.append(Case(H + "macro_errors_contract", kind, shape_err(kind), target=[G + "generate_macro_application"]))
     for co in (False, True):
-        cs.append(Case(H + "deferred_application_contract", "forward label" + (" + coinciding name" if co else ""), shape_deferred(co),
-                       target=[G + "generate_macro_application", "a816.parse.nodes.SymbolNode.pc_after"]))
+        for sib in (False, True):
+            cs.append(Case(H + "deferred_application_contract", "forward label" + (" + coinciding name" if co else "") + (", after a closed sibling scope defining that name" if sib else ""),
+                           shape_deferred(co, sib), target=[G + "generate_macro_application", "a816.parse.nodes.SymbolNode.pc_after"]))
     return cs
 
 
